@@ -7,6 +7,7 @@ unordered result with its keys appended)))).
 """
 import itertools
 from decimal import InvalidOperation
+import re as _re
 
 from .. import engine, gen, ir, model, monitors, ledgers
 from ..ir import T_INT, T_DEC, T_STR, T_DATE, T_BOOL
@@ -26,7 +27,7 @@ RULE = ('Exhaustive part: all 30 ASC/DESC direction patterns of 1-4 ORDER BY key
 ASSUMPTIONS = ['reference model R2 written from the property statement', 'ordering of object-typed mixed values is not generated']
 _LIT = ir.Style()
 _LIT.param_style = 'literal'
-EXCLUDED_BOTH = (InvalidOperation, OverflowError)
+EXCLUDED_BOTH = (InvalidOperation, OverflowError, _re.error)      # (an invalid regular expression built from data: undefined)
 
 
 def classify_exc(exc, q):
@@ -83,8 +84,9 @@ def run_case(ctx, q, tables, route, label, mon):
         if eng_exc is not None and mod_exc is not None and type(eng_exc) is type(mod_exc):
             ctx.count('excluded.definition_raises')
             return
-        if isinstance(eng_exc, EXCLUDED_BOTH):
-            # arithmetic domain error on a row / key the (lazier) model never evaluated: outside the property, counted
+        if isinstance(eng_exc, EXCLUDED_BOTH) and model.domain_error_possible(q, tables, EXCLUDED_BOTH):
+            # arithmetic domain error on a row / key / sub-expression the (lazier) model never evaluated (such an evaluation
+            # exists): outside the property, counted
             ctx.count('excluded.engine_arithmetic_domain_error')
             return
         if eng_exc is not None and is_equal_constant_merge(eng_exc, q, tables):
